@@ -1,13 +1,427 @@
-//! Retention, size-limit, partition-count and group-deletion operations of the data world.
+//! Retention, size-limit, partition-count and group-deletion operations of the data world
+//! (oracle clauses of C14, C15, C16, C17, C07).
 
 use crate::world::*;
+use iggy::client::*;
+use iggy::compression::compression_algorithm::CompressionAlgorithm;
+use iggy::identifier::Identifier;
 use iggy::models::messages::PolledMessages;
-use serde_json::Value;
+use iggy::utils::byte_size::IggyByteSize;
+use iggy::utils::duration::IggyDuration;
+use iggy::utils::expiry::IggyExpiry;
+use iggy::utils::timestamp::IggyTimestamp;
+use iggy::utils::topic_size::MaxTopicSize;
+use serde_json::{json, Value};
 
-pub async fn exec_ext(_w: &mut World, _op: Op) -> R<()> {
+fn expiry_of(us: u64) -> IggyExpiry {
+    match us {
+        0 => IggyExpiry::NeverExpire,
+        u64::MAX => IggyExpiry::ServerDefault,
+        v => IggyExpiry::ExpireDuration(IggyDuration::from(v)),
+    }
+}
+
+fn maxsize_of(b: u64) -> MaxTopicSize {
+    match b {
+        0 => MaxTopicSize::Unlimited,
+        u64::MAX => MaxTopicSize::ServerDefault,
+        v => MaxTopicSize::Custom(IggyByteSize::from(v)),
+    }
+}
+
+pub async fn exec_ext(w: &mut World, op: Op) -> R<()> {
+    match op {
+        Op::Maintain => maintain(w).await,
+        Op::UpdateExpiry { us } => update_topic(w, Some(us), None).await,
+        Op::UpdateMaxSize { bytes } => update_topic(w, None, Some(bytes)).await,
+        Op::CreatePartitions { n } => create_partitions(w, n).await,
+        Op::DeletePartitions { n } => delete_partitions(w, n).await,
+        Op::DeleteGroup { idx } => delete_group(w, idx).await,
+        Op::RestartKey { off } => restart_wrong_key(w, off).await,
+        Op::CorruptCiphertext => corrupt_ciphertext(w).await,
+        _ => Ok(()),
+    }
+}
+
+async fn update_topic(w: &mut World, expiry: Option<u64>, max: Option<u64>) -> R<()> {
+    let new_exp = expiry.unwrap_or(w.expiry_us);
+    let new_max = max.unwrap_or(w.max_size);
+    let c = w.client.as_ref().unwrap();
+    let r = timed(
+        "update_topic",
+        c.update_topic(&w.stream, &w.topic, "t1", CompressionAlgorithm::None, None, expiry_of(new_exp), maxsize_of(new_max)),
+    )
+    .await?;
+    // limit validation (C15): 0 < max < segment size must be refused, everything else accepted
+    let seg = w.cfg.segment_size;
+    let invalid = new_max != 0 && new_max != u64::MAX && new_max < seg;
+    w.eval("C15:limit-validation");
+    match r {
+        Ok(()) => {
+            if invalid {
+                let wv = json!({"update_topic_max_size": new_max, "segment_size": seg, "result": "accepted"});
+                return Err(viol("C15", "limit-validation", "too-small-accepted", w.witness(wv)));
+            }
+            w.expiry_us = new_exp;
+            w.max_size = new_max;
+            if expiry.is_some() {
+                w.event("expiry_updated");
+                w.shape.push("update_expiry");
+            }
+            if max.is_some() {
+                w.event("max_size_updated");
+                w.shape.push("update_max");
+            }
+        }
+        Err(e) => {
+            if !invalid {
+                let wv = json!({"update_topic": {"expiry": new_exp, "max_size": new_max}, "segment_size": seg, "error": e.to_string()});
+                return Err(viol("C15", "limit-validation", "valid-update-refused", w.witness(wv)));
+            }
+            w.event("too_small_limit_refused");
+            w.shape.push("update_max_refused");
+        }
+    }
+    // an update changes only what it names
+    let t = w.get_topic().await?;
+    w.eval("C06:update-changes-only-named");
+    let ids: Vec<u32> = w.parts.iter().map(|p| p.id).collect();
+    for id in ids {
+        let pd = t.partitions.iter().find(|x| x.id == id);
+        let cur = w.part(id).unwrap().cur();
+        if pd.map(|p| p.current_offset) != Some(cur) {
+            let wv = json!({"after_update_topic": "current offset changed", "partition": id});
+            return Err(viol("C06", "update-changes-only-named", "data-op", w.witness(wv)));
+        }
+    }
     Ok(())
 }
 
-pub async fn check_below_earliest(_w: &mut World, _part: u32, _got: &PolledMessages, _value: u64, _count: u32, _ctx: Value) -> R<()> {
+/// One maintenance pass with the retention / size-limit oracles.
+async fn maintain(w: &mut World) -> R<()> {
+    // make sure every retained message has a learned timestamp (needed to judge expiry)
+    let ids: Vec<u32> = w.parts.iter().map(|p| p.id).collect();
+    for id in &ids {
+        let unknown = {
+            let p = w.part(*id).unwrap();
+            p.msgs.iter().skip(p.earliest as usize).any(|r| r.ts.is_none())
+        };
+        if unknown {
+            w.scan_offsets(*id).await?;
+        }
+    }
+    let before = w.get_topic().await?;
+    let t0 = IggyTimestamp::now().as_micros();
+    let r = timed("maintain", w.inst.as_ref().unwrap().maintain()).await?;
+    r.map_err(Stop::Inconclusive)?;
+    let t1 = IggyTimestamp::now().as_micros();
+    let _ = t0;
+    let after = w.get_topic().await?;
+    let e = w.effective_expiry();
+    let max = w.effective_max_size();
+    let size_cleanup_possible = w.cfg.delete_oldest && max != 0;
+    w.retention_active = true;
+    let mut any_deleted = false;
+    for id in ids {
+        let (len, old_e) = {
+            let p = w.part(id).unwrap();
+            (p.msgs.len() as u64, p.earliest)
+        };
+        let seen = w.scan_offsets(id).await?;
+        let f = seen.first().copied().unwrap_or(len);
+        // 1. survivors are a contiguous suffix, served as before (content checked by scan_offsets)
+        w.eval("C14:survivors-served");
+        let exp: Vec<u64> = (f..len).collect();
+        if seen != exp || f < old_e {
+            let wv = json!({"partition": id, "after_pass_scan": compress(&seen), "expected_suffix_from": f, "previous_earliest": old_e, "len": len});
+            let trig = if f < old_e { "resurrected" } else { "not-a-suffix" };
+            let cache = if w.cache == crate::inst::CacheMode::Off { "cache_off" } else { "cache_on" };
+            return Err(viol("C14", "survivors-served", &format!("{trig}/{cache}"), w.witness(wv)));
+        }
+        let pb = before.partitions.iter().find(|x| x.id == id);
+        let pa = after.partitions.iter().find(|x| x.id == id);
+        if f > old_e {
+            any_deleted = true;
+            w.event("retention_deleted_messages");
+            w.shape.push("maintain_deleted");
+            if f >= len {
+                w.event("retention_deleted_everything");
+                w.shape.push("maintain_deleted_all");
+            }
+            // 2. deleted => expired (unless size-limit clean-up may apply)
+            w.eval("C14:deleted-implies-expired");
+            if !size_cleanup_possible {
+                if e == 0 {
+                    let wv = json!({"partition": id, "deleted": format!("[{old_e}..{}]", f - 1), "expiry": "never"});
+                    return Err(viol("C14", "deleted-implies-expired", "never-expiring-topic-lost-messages", w.witness(wv)));
+                }
+                let p = w.part(id).unwrap();
+                for off in old_e..f {
+                    let ts = p.msgs[off as usize].ts.unwrap_or(0);
+                    if ts + e > t1 {
+                        let wv = json!({"partition": id, "deleted_offset": off, "timestamp": ts, "expiry_us": e, "pass_time_upper": t1,
+                            "deleted": format!("[{old_e}..{}]", f - 1), "newest_deleted": f >= len});
+                        return Err(viol("C14", "deleted-implies-expired", "unexpired-deleted", w.witness(wv)));
+                    }
+                }
+            } else {
+                // C15: size-limit clean-up: at most the oldest closed segment per partition, never the newest data
+                w.eval("C15:cleanup-oldest-only");
+                if let (Some(pb), Some(pa)) = (pb, pa) {
+                    if pb.segments_count > pa.segments_count + 1 {
+                        let wv = json!({"partition": id, "segments_before": pb.segments_count, "segments_after": pa.segments_count});
+                        return Err(viol("C15", "cleanup-oldest-only", "more-than-one-segment", w.witness(wv)));
+                    }
+                }
+                if f >= len && e == 0 {
+                    let wv = json!({"partition": id, "deleted": format!("[{old_e}..{}]", f - 1), "newest_offset": len - 1});
+                    return Err(viol("C15", "cleanup-oldest-only", "newest-data-deleted", w.witness(wv)));
+                }
+                w.event("size_cleanup_deleted");
+            }
+        } else {
+            w.shape.push("maintain_noop");
+        }
+        if !w.cfg.delete_oldest && e == 0 {
+            w.eval("C15:nothing-without-delete-oldest");
+        }
+        w.part_mut(id).earliest = f;
+    }
+    if any_deleted {
+        w.event("maintain_pass_deleted");
+    }
+    w.event("maintain_pass");
+    // 3. current offsets unchanged, counters consistent
+    w.checkpoint("after-maintain").await
+}
+
+/// C14's lenient rule for reads that start below the earliest retained offset.
+pub async fn check_below_earliest(w: &mut World, part: u32, got: &PolledMessages, value: u64, count: u32, ctx: Value) -> R<()> {
+    let (e, cur, len) = {
+        let p = w.part(part).unwrap();
+        (p.earliest, p.cur(), p.msgs.len() as u64)
+    };
+    w.eval("C14:below-earliest");
+    w.event("poll_below_earliest");
+    let offs: Vec<u64> = got.messages.iter().map(|m| m.offset).collect();
+    for m in &got.messages {
+        w.check_message(part, m, &ctx)?;
+    }
+    let reaches = value.saturating_add(count as u64 - 1) >= e;
+    let have = len > e;
+    if offs.is_empty() {
+        let is_next = ctx["poll"].as_str() == Some("Next");
+        if have && (reaches || is_next) {
+            let wv = json!({"ctx": ctx, "partition": part, "earliest_retained": e, "current_offset": cur, "got": "[]"});
+            let trig = if is_next { "next-starves" } else { "empty-though-window-reaches-retained" };
+            return Err(viol("C14", "below-earliest", trig, w.witness(wv)));
+        }
+        return Ok(());
+    }
+    let contiguous = offs.windows(2).all(|x| x[1] == x[0] + 1);
+    let maxlen = (count as u64).min(cur - e + 1);
+    if offs[0] != e || !contiguous || offs.len() as u64 > maxlen {
+        let wv = json!({"ctx": ctx, "partition": part, "earliest_retained": e, "got": compress(&offs), "max_len": maxlen});
+        return Err(viol("C14", "below-earliest", "does-not-start-at-earliest", w.witness(wv)));
+    }
     Ok(())
+}
+
+async fn create_partitions(w: &mut World, n: u32) -> R<()> {
+    if w.parts.len() as u32 + n > 6 {
+        return Ok(());
+    }
+    let c = w.client.as_ref().unwrap();
+    let r = timed("create_partitions", c.create_partitions(&w.stream, &w.topic, n)).await?;
+    if let Err(e) = r {
+        let wv = json!({"create_partitions": n, "error": e.to_string()});
+        return Err(viol("C06", "valid-refused", "create_partitions", w.witness(wv)));
+    }
+    let base = w.parts.len() as u32;
+    for i in 1..=n {
+        w.parts.push(PartM { id: base + i, ..Default::default() });
+    }
+    w.rr_next = None;
+    w.event("partitions_created");
+    w.shape.push("create_partitions");
+    w.checkpoint("after-create-partitions").await
+}
+
+async fn delete_partitions(w: &mut World, n: u32) -> R<()> {
+    let n = n.min(w.parts.len() as u32 - 1);
+    if n == 0 {
+        return Ok(());
+    }
+    let c = w.client.as_ref().unwrap();
+    let r = timed("delete_partitions", c.delete_partitions(&w.stream, &w.topic, n)).await?;
+    if let Err(e) = r {
+        let wv = json!({"delete_partitions": n, "error": e.to_string()});
+        return Err(viol("C06", "valid-refused", "delete_partitions", w.witness(wv)));
+    }
+    let had_msgs = w.parts.iter().rev().take(n as usize).any(|p| !p.msgs.is_empty());
+    for _ in 0..n {
+        w.parts.pop();
+    }
+    w.rr_next = None;
+    w.event("partitions_deleted");
+    if had_msgs {
+        w.event("nonempty_partition_deleted");
+    }
+    w.shape.push("delete_partitions");
+    w.checkpoint("after-delete-partitions").await
+}
+
+async fn delete_group(w: &mut World, idx: u8) -> R<()> {
+    if !w.groups_alive[idx as usize] {
+        return Ok(());
+    }
+    let gid = GROUPS[idx as usize].0;
+    let c = w.client.as_ref().unwrap();
+    let r = timed("delete_group", c.delete_consumer_group(&w.stream, &w.topic, &Identifier::numeric(gid).unwrap())).await?;
+    if let Err(e) = r {
+        let wv = json!({"delete_group": gid, "error": e.to_string()});
+        return Err(viol("C06", "valid-refused", "delete_consumer_group", w.witness(wv)));
+    }
+    w.groups_alive[idx as usize] = false;
+    w.event("group_deleted");
+    w.shape.push("delete_group");
+    // stored offsets vanish with the group: re-create it under the same id and look
+    let c = w.client.as_ref().unwrap();
+    let r = timed("create_group", c.create_consumer_group(&w.stream, &w.topic, GROUPS[idx as usize].1, Some(gid))).await?;
+    if let Err(e) = r {
+        let wv = json!({"recreate_group": gid, "error": e.to_string()});
+        return Err(viol("C06", "valid-refused", "create_consumer_group", w.witness(wv)));
+    }
+    w.groups_alive[idx as usize] = true;
+    for p in w.parts.iter_mut() {
+        p.offs.remove(&Ident::G(gid));
+    }
+    w.eval("C07:vanish-with-group");
+    w.verify_all_offsets("after-group-delete").await
+}
+
+
+/// C19: restart with another key (or with encryption switched off) must fail or refuse reads; it must never
+/// deliver the data as valid content and never panic. Afterwards the right key restores everything.
+async fn restart_wrong_key(w: &mut World, off: bool) -> R<()> {
+    use crate::inst::{ServerInstance, StartError, ENC_KEY_B};
+    if !w.cfg.encryption {
+        return Ok(());
+    }
+    w.checkpoint("before-restart").await?;
+    w.client = None;
+    let inst = w.inst.take().unwrap();
+    timed("stop", inst.stop(true)).await?.map_err(Stop::Inconclusive)?;
+    let mut bad = w.cfg.clone();
+    if off {
+        bad.encryption = false;
+    } else {
+        bad.enc_key = ENC_KEY_B.to_string();
+    }
+    let label = if off { "encryption-off" } else { "other-key" };
+    w.eval("C19:wrong-key");
+    match timed("start", ServerInstance::start(&w.dir, &bad, w.cache)).await? {
+        Err(StartError::Init(_)) => {
+            w.event(&format!("wrong_key_start_refused_{label}"));
+        }
+        Err(StartError::Panic(m)) => {
+            let wv = json!({"restart_with": label, "panic": m});
+            return Err(viol("C19", "wrong-key", &format!("start-panic/{label}"), w.witness(wv)));
+        }
+        Err(StartError::Harness(e)) => return Err(Stop::Inconclusive(e)),
+        Ok(inst2) => {
+            // started: every read must be refused or at least never return the original plaintext
+            w.event(&format!("wrong_key_started_{label}"));
+            let client = crate::raw::RawClient::connect(inst2.tcp_addr).await.map_err(Stop::Inconclusive)?;
+            let login = timed("login", client.login_user("iggy", "iggy")).await?;
+            if login.is_ok() && !off {
+                let ids: Vec<u32> = w.parts.iter().map(|p| p.id).collect();
+                for id in ids {
+                    let who = iggy::consumer::Consumer::new(Identifier::numeric(9998).unwrap());
+                    let r = timed("poll", client.poll_messages(&w.stream, &w.topic, Some(id), &who, &iggy::messages::poll_messages::PollingStrategy::first(), 10, false)).await?;
+                    if let Ok(pm) = r {
+                        if !pm.messages.is_empty() {
+                            let wv = json!({"restart_with": label, "partition": id, "delivered": pm.messages.len()});
+                            return Err(viol("C19", "wrong-key", "delivered-under-other-key", w.witness(wv)));
+                        }
+                    }
+                }
+            }
+            drop(client);
+            let _ = timed("stop", inst2.stop(false)).await?;
+        }
+    }
+    let panics = crate::inst::take_server_panics();
+    if !panics.is_empty() {
+        let wv = json!({"restart_with": label, "panics": panics});
+        return Err(viol("C19", "wrong-key", &format!("panic/{label}"), w.witness(wv)));
+    }
+    // the right key restores everything
+    w.start_instance().await?;
+    w.restarts += 1;
+    for p in w.parts.iter_mut() {
+        p.persisted = p.msgs.len() as u64;
+        p.unsaved = 0;
+        p.restarted = true;
+        p.first_after_restart = None;
+    }
+    w.rr_next = None;
+    w.shape.push(if off { "restart_enc_off" } else { "restart_other_key" });
+    w.checkpoint("after-restart").await
+}
+
+/// C19: a flipped byte in a stored ciphertext must surface as an error for the affected poll.
+async fn corrupt_ciphertext(w: &mut World) -> R<()> {
+    if !w.cfg.encryption {
+        return Ok(());
+    }
+    let Some(part) = w.parts.iter().find(|p| !p.msgs.is_empty() && p.earliest == 0).map(|p| p.id) else { return Ok(()) };
+    w.checkpoint("before-restart").await?;
+    w.client = None;
+    let inst = w.inst.take().unwrap();
+    timed("stop", inst.stop(true)).await?.map_err(Stop::Inconclusive)?;
+    // newest non-empty log file of the partition; flip one byte in the tail of its last message (GCM tag)
+    let pdir = w.dir.join(format!("streams/1/topics/1/partitions/{part}"));
+    let mut logs: Vec<(u64, std::path::PathBuf)> = vec![];
+    if let Ok(rd) = std::fs::read_dir(&pdir) {
+        for e in rd.flatten() {
+            let p = e.path();
+            if p.extension().map(|x| x == "log").unwrap_or(false) {
+                if let Some(start) = p.file_stem().and_then(|s| s.to_str()).and_then(|s| s.parse::<u64>().ok()) {
+                    if std::fs::metadata(&p).map(|m| m.len() > 40).unwrap_or(false) {
+                        logs.push((start, p));
+                    }
+                }
+            }
+        }
+    }
+    logs.sort();
+    let Some((_, path)) = logs.last().cloned() else {
+        w.start_instance().await?;
+        return Ok(());
+    };
+    let mut data = std::fs::read(&path).map_err(|e| Stop::Inconclusive(e.to_string()))?;
+    let n = data.len();
+    data[n - 3] ^= 0x41;
+    std::fs::write(&path, &data).map_err(|e| Stop::Inconclusive(e.to_string()))?;
+    w.start_instance().await?;
+    let last = w.part(part).unwrap().cur();
+    let who = iggy::consumer::Consumer::new(Identifier::numeric(9998).unwrap());
+    let r = w.raw_poll(part, &iggy::messages::poll_messages::PollingStrategy::offset(last), 1, &who, false).await?;
+    w.eval("C19:corrupt-ciphertext-reported");
+    w.event("ciphertext_corrupted");
+    w.shape.push("corrupt_ciphertext");
+    let panics = crate::inst::take_server_panics();
+    if !panics.is_empty() {
+        let wv = json!({"corrupted_file": path.to_string_lossy(), "panics": panics});
+        return Err(viol("C19", "corrupt-ciphertext-reported", "panic", w.witness(wv)));
+    }
+    if let Ok(pm) = r {
+        if pm.messages.iter().any(|m| m.offset == last) {
+            let wv = json!({"corrupted_file": path.to_string_lossy(), "partition": part, "offset": last, "result": "delivered"});
+            return Err(viol("C19", "corrupt-ciphertext-reported", "delivered", w.witness(wv)));
+        }
+    }
+    // the data directory is now corrupt by construction: end the history here
+    Err(Stop::Inconclusive("end-after-corruption".into()))
 }
